@@ -40,16 +40,13 @@ def proof_stage(pid):
     if missing:
         info['log'] = 'theorems without Print Assumptions: %s' % missing
         return info
-    os.makedirs(os.path.join(VERIF, 'build', 'props'), exist_ok=True)
-    out_vo = os.path.join(VERIF, 'build', 'props', '%s.%d.vo' % (pid, os.getpid()))
+    import shutil
+    outdir = os.path.join(VERIF, 'build', 'props', '%s.%d' % (pid, os.getpid()))
+    os.makedirs(outdir, exist_ok=True)
+    out_vo = os.path.join(outdir, pid + '.vo')
     cmd = 'timeout 900 coqc -Q coq FxpVerif -w -notation-overridden,-ambiguous-paths -o %s coq/Props/%s.v' % (out_vo, pid)
     rc, out = sh(cmd, timeout=1000)
-    for ext in ('', 'k', 's'):
-        try: os.unlink(out_vo + ext if ext else out_vo)
-        except OSError: pass
-    for f in glob.glob(os.path.join(VERIF, 'build', 'props', '%s.%d.*' % (pid, os.getpid()))):
-        try: os.unlink(f)
-        except OSError: pass
+    shutil.rmtree(outdir, ignore_errors=True)
     info['log'] = out[-3000:]
     if rc != 0:
         m = re.search(r'File "[^"]*", line (\d+)', out)
@@ -85,7 +82,7 @@ def load_known():
     return json.load(open(p)).get('findings', [])
 
 def write_replay(pid, seed, k, payload):
-    d = os.path.join(VERIF, 'replays'); os.makedirs(d, exist_ok=True)
+    d = os.path.join(os.environ['VERIF_EVIDENCE_DIR'], 'replays') if os.environ.get('VERIF_EVIDENCE_DIR') else os.path.join(VERIF, 'replays'); os.makedirs(d, exist_ok=True)
     path = os.path.join(d, '%s-%s-%d.json' % (pid, seed, k))
     json.dump(jsonable(payload), open(path, 'w'), indent=1)
     return path
@@ -103,10 +100,14 @@ def main():
     t0 = time.time()
     violations = []      # (line_suffix, replay_path)
     known_printed = []
-    evidence_path = os.path.join(VERIF, 'evidence', pid + '.json')
+    evidence_path = os.path.join(os.environ.get('VERIF_EVIDENCE_DIR') or os.path.join(VERIF, 'evidence'), pid + '.json')
     os.makedirs(os.path.dirname(evidence_path), exist_ok=True)
 
     mod = importlib.import_module(pid.lower())
+    if not args.replay:
+        for old in glob.glob(os.path.join(VERIF, 'replays', pid + '-*.json')):
+            try: os.unlink(old)
+            except OSError: pass
 
     # ---- replay mode ---------------------------------------------------------
     if args.replay:
@@ -166,7 +167,7 @@ def main():
             try: fl = mod.shrink(fl)
             except Exception: pass
         payload = {'property': pid, 'what': what, 'case': fl['case'], 'expected': fl.get('expected'), 'got': fl.get('got'),
-                   'similar_failures': len(fls), 'replay_cmd': './check %s --replay <this file>' % pid}
+                   'similar_failures': getattr(res, 'fail_counts', {}).get(what, len(fls)), 'replay_cmd': './check %s --replay <this file>' % pid}
         path = write_replay(pid, seed, k, payload); k += 1
         suffix = ' no-failing-input-found' if fl.get('no_input') else ''
         violations.append((suffix, path))
@@ -196,7 +197,7 @@ def main():
         'rule': rule,
         'strata': res.strata,
         'samples': jsonable(res.samples[:8]) or [{'note': 'no correspondence case was run (build failed)'}],
-        'correspondence_failures': len(res.failures),
+        'correspondence_failures': sum(getattr(res, 'fail_counts', {}).values()),
         'known_findings_printed': known_printed,
         'notes': res.notes[:20],
     }
